@@ -188,10 +188,12 @@ Fixpoint drop_all (s : st) (gs : list gid) : st * bool :=
 Definition live_gids (q : list wrec) : list gid :=
   flat_map (fun w => match w_gen w with Some g => [g] | None => [] end) q.
 
-(* The popped records come out by increasing deadline.  Heap ties: among
-   coroutines with the same deadline the order is read from the execution
-   logs of this and of the later frames (first those that the logs show, in
-   that order, then the others). *)
+(* The popped records come out by increasing deadline.  Heap ties: the order
+   among coroutines with the same deadline is an open choice.  [wake] takes
+   the order as a parameter [ord] and checks that it is admissible: it lists
+   exactly the woken coroutines, by non-decreasing deadline, and those that
+   the log of this frame shows come in the order in which the log shows
+   them.  [run] tries the admissible readings (almost always there is one). *)
 Definition log_gids (log : list entry) : list gid := map (fun e => fst (fst e)) log.
 
 Fixpoint dedup (l : list Z) : list Z :=
@@ -200,15 +202,39 @@ Fixpoint dedup (l : list Z) : list Z :=
   | x :: l => x :: remz x (dedup l)
   end.
 
-Definition order_by_log (log : list entry) (woken : list gid) : list gid :=
-  let seen := filter (fun g => memz g woken) (dedup (log_gids log)) in
-  seen ++ filter (fun g => negb (memz g seen)) woken.
-
 Definition dl_of (q : list wrec) (g : gid) : Z :=
   match find (fun w => match w_gen w with Some g' => g =? g' | None => false end) q with
   | Some w => w_dl w
   | None => 0
   end.
+
+Fixpoint nondecr (l : list Z) : bool :=
+  match l with
+  | x :: ((y :: _) as l') => (x <=? y) && nondecr l'
+  | _ => true
+  end.
+
+Fixpoint nodupb (l : list Z) : bool :=
+  match l with
+  | [] => true
+  | x :: l => negb (memz x l) && nodupb l
+  end.
+
+Fixpoint zlist_eqb (l m : list Z) : bool :=
+  match l, m with
+  | [], [] => true
+  | x :: l, y :: m => (x =? y) && zlist_eqb l m
+  | _, _ => false
+  end.
+
+(* the woken coroutines that the log of this frame shows, in that order *)
+Definition seen_now (log : list entry) (woken : list gid) : list gid :=
+  filter (fun g => memz g woken) (dedup (log_gids log)).
+
+Definition valid_order (popped : list wrec) (log : list entry) (woken ord : list gid) : bool :=
+  nodupb ord && subz ord woken && subz woken ord
+  && nondecr (map (dl_of popped) ord)
+  && zlist_eqb (filter (fun g => memz g (seen_now log woken)) ord) (seen_now log woken).
 
 (* stable insertion sort by key *)
 Fixpoint insert_by (key : gid -> Z) (x : gid) (l : list gid) : list gid :=
@@ -228,7 +254,11 @@ Definition set_active s a := mkSt (gens s) a (waitq s) (killq s) (proms s) (pv s
 
 (* if len(wait_queue) > 0: timer += dt; pop every record with deadline <= timer ...;
    if the queue is empty now: timer = 0. *)
-Definition wake (s : st) (dt : Z) (log : list entry) : option (st * bool) :=
+Definition woken_of (s : st) (dt : Z) : list wrec * list gid :=
+  let popped := filter (is_due (timer s + dt)) (waitq s) in
+  (popped, filter (fun g => negb (memz g (killq s))) (live_gids popped)).
+
+Definition wake (ord : list gid) (s : st) (dt : Z) (log : list entry) : option (st * bool) :=
   match waitq s with
   | [] => Some (s, false)
   | _ :: _ =>
@@ -238,11 +268,11 @@ Definition wake (s : st) (dt : Z) (log : list entry) : option (st * bool) :=
       let lg := live_gids popped in
       let killed := filter (fun g => memz g (killq s)) lg in
       let woken := filter (fun g => negb (memz g (killq s))) lg in
-      let ordered := sort_by (dl_of popped) (order_by_log log woken) in
+      if negb (valid_order popped log woken ord) then None else
       let s1 := set_waitq (set_timer s tm) rest in
       let '(s2, e) := drop_all s1 killed in
       if e then Some (s2, true) else
-      let s3 := fold_left wake_one ordered s2 in
+      let s3 := fold_left wake_one ord s2 in
       Some (match rest with [] => set_timer s3 0 | _ => s3 end, false)
   end.
 
@@ -375,12 +405,9 @@ Fixpoint loop (sc : scripts) (fuel : nat) (s : st) (log : list entry)
     end
   end.
 
-(* [fut]: the execution logs of the later frames.  The order in which
-   coroutines with the same deadline were popped may show only there (when
-   this frame is abandoned before they run); it is read from there, too. *)
-Definition process (sc : scripts) (s : st) (dt : Z) (log fut : list entry)
+Definition process (ord : list gid) (sc : scripts) (s : st) (dt : Z) (log : list entry)
   : option (st * list entry * outcome) :=
-  match wake s dt (log ++ fut) with
+  match wake ord s dt log with
   | None => None
   | Some (s1, true) => Some (s1, log, OKeyError)
   | Some (s1, false) =>
@@ -389,7 +416,7 @@ Definition process (sc : scripts) (s : st) (dt : Z) (log fut : list entry)
   end.
 
 (* ---- the acceptor ------------------------------------------------------- *)
-Definition step (sc : scripts) (s : st) (o : op) (ob : obs) (fut : list entry) : option st :=
+Definition step (ord : list gid) (sc : scripts) (s : st) (o : op) (ob : obs) : option st :=
   match o, ob with
   | Start g, ObsR r => let '(s', r') := do_start s g in
                        if outcome_eqb r r' then Some s' else None
@@ -400,7 +427,7 @@ Definition step (sc : scripts) (s : st) (o : op) (ob : obs) (fut : list entry) :
       if oz_eqb v (match alookup g (pv s) with Some x => x | None => None end)
       then Some s else None
   | Process dt, ObsP log exc =>
-      match process sc s dt log fut with
+      match process ord sc s dt log with
       | Some (s', [], e) => if outcome_eqb exc e then Some s' else None
       | _ => None
       end
@@ -410,11 +437,58 @@ Definition step (sc : scripts) (s : st) (o : op) (ob : obs) (fut : list entry) :
 Definition future (tr : trace) : list entry :=
   flat_map (fun x => match snd x with ObsP log _ => log | _ => [] end) tr.
 
+(* ---- the readings of the open choice that are tried ---------------------- *)
+Fixpoint insert_all (x : Z) (l : list Z) : list (list Z) :=
+  match l with
+  | [] => [[x]]
+  | y :: l' => (x :: l) :: map (cons y) (insert_all x l')
+  end.
+Fixpoint perms (l : list Z) : list (list Z) :=
+  match l with
+  | [] => [[]]
+  | x :: l => flat_map (insert_all x) (perms l)
+  end.
+Fixpoint dedupl (ls : list (list Z)) : list (list Z) :=
+  match ls with
+  | [] => []
+  | l :: ls => l :: filter (fun m => negb (zlist_eqb l m)) (dedupl ls)
+  end.
+
+(* first the likely ones: the coroutines that this frame's log does not show
+   (killed before their turn, or the frame was abandoned) in the order in
+   which the later logs show them, after - or before - those that it shows;
+   then, when few coroutines woke, every arrangement.  Inadmissible ones are
+   refused by [wake]. *)
+Definition readings (s : st) (o : op) (ob : obs) (fut : list entry) : list (list gid) :=
+  match o, ob with
+  | Process dt, ObsP log _ =>
+      let '(popped, woken) := woken_of s dt in
+      let key := dl_of popped in
+      let seen := seen_now log woken in
+      let rest := filter (fun g => negb (memz g seen)) woken in
+      let later := filter (fun g => memz g rest) (dedup (log_gids fut)) in
+      let rest_f := later ++ filter (fun g => negb (memz g later)) rest in
+      let all := if Nat.leb (length woken) 4 then map (sort_by key) (perms woken) else [] in
+      filter (valid_order popped log woken)
+             (dedupl (sort_by key (seen ++ rest_f) :: sort_by key (rest_f ++ seen) :: all))
+  | _, _ => [[]]
+  end.
+
+(* The trace is accepted if one of the readings of the open choices leads to
+   acceptance of all the rest. *)
 Fixpoint run (sc : scripts) (s : st) (tr : trace) : option st :=
   match tr with
   | [] => Some s
   | (o, ob) :: tr =>
-      match step sc s o ob (future tr) with Some s' => run sc s' tr | None => None end
+      (fix try (cs : list (list gid)) : option st :=
+         match cs with
+         | [] => None
+         | c :: cs =>
+             match (match step c sc s o ob with Some s1 => run sc s1 tr | None => None end) with
+             | Some r => Some r
+             | None => try cs
+             end
+         end) (readings s o ob (future tr))
   end.
 
 (* generators referenced from some structure of the processor *)
